@@ -591,6 +591,52 @@ def check_legacy_tape(st, eps, epsp, shots, us, fs):
     return out + [("@ltape", "")]
 
 
+def lexpect_cases(tier):
+    """CoherentResults.expect with detection errors (the measured pseudo-density state) in every basis, incl. the leakage bases."""
+    out = []
+    for bname, (states, meas, one) in BASES.items():
+        if meas is None:
+            continue
+        for n in (1, 2):
+            for tup in itertools.product(range(len(states)), repeat=n):
+                for eps, epsp in ((0.0, 0.0), (0.1, 0.0), (0.0, 0.25), (0.1, 0.25)):
+                    out.append(("lexpect", bname, tup, eps, epsp))
+    return out
+
+
+def check_lexpect(bname, tup, eps, epsp):
+    """<P_1 on atom i> on the measured state == p1 (1 - eps') + (1 - p1) eps, with p1 the population of the state that reads as 1
+    (r / h / d; the leaked state reads 0) - the convention the sampled bitstrings follow."""
+    import qutip
+    from pulser_simulation.qutip_result import QutipResult
+    from pulser_simulation.simresults import CoherentResults
+
+    states, mb, one = BASES[bname]
+    n, dim = len(tup), len(states)
+    ket = qutip.tensor([qutip.basis(dim, i) for i in tup])
+    order = tuple(f"q{i}" for i in range(n))
+    out = []
+    try:
+        qr = QutipResult(order, mb, ket, True)
+        res = CoherentResults([qr], n, bname, np.array([0.0]), mb, {"epsilon": eps, "epsilon_prime": epsp})
+        # position of the state that reads as 1 in the two-level measured space: r comes first in ground-rydberg, h / d second
+        pos1 = 0 if mb == "ground-rydberg" else 1
+        vals = []
+        for i in range(n):
+            ops = [qutip.qeye(2)] * n
+            ops[i] = qutip.basis(2, pos1).proj()
+            vals.append(float(np.real(res.expect([qutip.tensor(ops)])[0][0])))
+    except Exception as e:
+        return [(f"C11:measured-state-raises:{bname}:{type(e).__name__}", f"{tup} eps=({eps},{epsp}): {e}"[:200])]
+    for i in range(n):
+        p1 = 1.0 if states[tup[i]] == one else 0.0
+        exp = p1 * (1 - epsp) + (1 - p1) * eps
+        if abs(vals[i] - exp) > 1e-9:
+            out.append((f"C11:measured-state-convention:{bname}:{'with' if (eps or epsp) else 'without'}-detection-errors",
+                        f"state {''.join(states[j] for j in tup)}, atom {i}: <P_1> = {vals[i]:.6g}, documented {exp:.6g} (eps={eps}, eps'={epsp})"))
+    return out + [("@lexpect", "")]
+
+
 # ---- E. stochastic state-preparation errors: every pattern of bad atoms over the runs ---------------------------
 STOCH_NOISE = {
     "spam": dict(state_prep_error=0.3),
@@ -830,6 +876,8 @@ def worker(case):
             return check_emu_history(case[1], case[2])
         if k == "ltape":
             return check_legacy_tape(*case[1:])
+        if k == "lexpect":
+            return check_lexpect(*case[1:])
         if k == "sweep":
             return sweep_case(case[1])
         if k == "phys":
@@ -851,7 +899,7 @@ def run(tier, seed):
     res = Result("exploration")
     nmax = 1500 if tier == "quick" else 12000
     cases = [("sweep", T) for T in range(4, nmax + 1)]
-    cases += piecewise_cases(tier) + phys_cases(tier) + reduce_cases(tier) + conv_cases(tier) + tape_cases(tier) + legacy_tape_cases(tier) + stoch_cases(tier) + emu_history_cases(tier)
+    cases += piecewise_cases(tier) + phys_cases(tier) + reduce_cases(tier) + conv_cases(tier) + tape_cases(tier) + legacy_tape_cases(tier) + lexpect_cases(tier) + stoch_cases(tier) + emu_history_cases(tier)
     outs = gridx.run(worker, cases, chunksize=8)
     classes = {}
     for c, r in zip(cases, outs):
